@@ -136,7 +136,7 @@ def doc(desc, original, s):
             pos.update(range(lo, lo + 3))
         return dict(score=-len(bad), breach=pos, region=True)
     if k in ("keep", "keep_idx", "keep_edits"):
-        if k == "keep_idx":
+        if k == "keep_idx" or desc.get("indices") is not None:
             idx = list(desc["indices"])
         else:
             a, b, _ = loc_of(desc, n)
